@@ -1052,6 +1052,7 @@ func ruleEQ3(c *Ctx) []Obligation {
 		}
 		o := Obligation{Key: typeKey(k.n) + ".Equal name cut", Pos: c.pos(k.fd.Pos()), Verdict: OK, Tags: []string{"types"}}
 		var cutPos, recPos token.Pos
+		var cutCond ast.Expr
 		ast.Inspect(k.fd.Body, func(n ast.Node) bool {
 			switch n := n.(type) {
 			case *ast.IfStmt:
@@ -1061,6 +1062,7 @@ func ruleEQ3(c *Ctx) []Obligation {
 						if be, ok := r.Results[0].(*ast.BinaryExpr); ok && be.Op == token.EQL && strings.Contains(exprString(be.X), "TypeName") && strings.Contains(exprString(be.Y), "TypeName") {
 							if cutPos == 0 {
 								cutPos = n.Pos()
+								cutCond = n.Cond
 							}
 						}
 					}
@@ -1081,6 +1083,39 @@ func ruleEQ3(c *Ctx) []Obligation {
 			o.Verdict, o.Detail = VIOL, "Equal recurses into field types before the type-name cut"
 		default:
 			o.Detail = "type-name comparison returns before the recursion over Fields"
+		}
+		// the cut applies as soon as either side is named: evaluated for (named, literal) and (literal, named)
+		if o.Verdict == OK && cutCond != nil && len(k.fd.Recv.List[0].Names) == 1 {
+			recv := k.fd.Recv.List[0].Names[0].Name + ".TypeName"
+			var eval func(e ast.Expr, a, b bool) (bool, bool)
+			eval = func(e ast.Expr, a, b bool) (bool, bool) {
+				e = unparen(e)
+				if be, ok := e.(*ast.BinaryExpr); ok && (be.Op == token.LOR || be.Op == token.LAND) {
+					x, ok1 := eval(be.X, a, b)
+					y, ok2 := eval(be.Y, a, b)
+					if !ok1 || !ok2 {
+						return false, false
+					}
+					if be.Op == token.LOR {
+						return x || y, true
+					}
+					return x && y, true
+				}
+				es := strings.ReplaceAll(exprString(e), " ", "")
+				if !strings.Contains(es, ".TypeName") || !(strings.HasSuffix(es, ">0") || strings.HasSuffix(es, `!=""`) || strings.HasSuffix(es, "!=0")) {
+					return false, false
+				}
+				if strings.Contains(es, recv) {
+					return a, true
+				}
+				return b, true
+			}
+			v1, ok1 := eval(cutCond, true, false)
+			v2, ok2 := eval(cutCond, false, true)
+			if ok1 && ok2 && (!v1 || !v2) {
+				o.Verdict, o.Pos = VIOL, c.pos(cutCond.Pos())
+				o.Detail = "the name comparison `" + exprString(cutCond) + "` does not apply when only one of the two struct types is identified: an identified struct then compares structurally with a literal one, so %a = {i32} equals {i32} equals %b while %a differs from %b — Equal is not transitive"
+			}
 		}
 		obs = append(obs, o)
 	}
